@@ -301,9 +301,37 @@ func cacheFresh(ctx *Ctx, r *Report, ctor string) {
 		r.undecided("V3", ctor, fn.Pos(), "constructor result is not a fresh object")
 		return
 	}
-	c, ok := fieldOf(obj, "cache")
-	_, isMap := c.(*MapV)
-	r.check("V3", ctor+"|cache-map-is-fresh-per-render", fn.Pos(), ok && isMap, "field cache = "+valKey(c)+" (must be a map made in the constructor: stale entries keyed by lattice index would pair wrong distances with corners)")
+	// every map held by the object (directly or inside a field that wraps it with its lock) is
+	// made in the constructor
+	nMaps, stale := 0, ""
+	var walk func(v Val, path string)
+	walk = func(v Val, path string) {
+		ag, isAgg := v.(*Agg)
+		if !isAgg || ag.T == nil {
+			return
+		}
+		st, isStruct := ag.T.Underlying().(*types.Struct)
+		if !isStruct {
+			return
+		}
+		for i, el := range ag.Elems {
+			if i >= st.NumFields() {
+				break
+			}
+			fp := path + "." + st.Field(i).Name()
+			if _, isMapT := st.Field(i).Type().Underlying().(*types.Map); isMapT {
+				if _, isMap := el.(*MapV); isMap {
+					nMaps++
+				} else {
+					stale += " " + fp + " = " + shortKey(valKey(el), 60) + ";"
+				}
+				continue
+			}
+			walk(el, fp)
+		}
+	}
+	walk(obj, "")
+	r.check("V3", ctor+"|cache-map-is-fresh-per-render", fn.Pos(), nMaps >= 1 && stale == "", fmt.Sprintf("%d map(s) made in the constructor (stale entries keyed by lattice index would pair wrong distances with corners);%s", nMaps, stale))
 }
 
 // cacheEvaluate: evaluate(vi) returns (origin + vi·resolution, s.Evaluate(that point) or the cached value for vi).
@@ -656,9 +684,10 @@ func batchProtocol(ctx *Ctx, r *Report, fn *ssa.Function, label string) {
 				}
 			}
 		}
-		r.check("V5", key+"|sent-when-buffer-has-K-points", s.Pos(), K > 0, fmt.Sprintf("send guarded by len(points) == K, K=%d", K))
 		outBase, outVal := reqComponent(site, "out")
 		pBase, pVal := reqComponent(site, "p")
+		pSent := pVal
+		lenAdvance := false // the window advances by len(sent points): right for any batch size
 		if outBase == nil && outVal == nil {
 			r.undecided("V5", key, s.Pos(), "the request sent is neither a local request struct nor a literal built for the send")
 			continue
@@ -709,6 +738,11 @@ func batchProtocol(ctx *Ctx, r *Report, fn *ssa.Function, label string) {
 						if n, ok := constInt(other); ok && n == K && phiFedBy(sentOff, bo, 0, map[ssa.Value]bool{}) {
 							shiftOK = true
 						}
+						if lc, ok := other.(*ssa.Call); ok && pSent != nil && phiFedBy(sentOff, bo, 0, map[ssa.Value]bool{}) {
+							if bi, ok := lc.Call.Value.(*ssa.Builtin); ok && bi.Name() == "len" && lc.Call.Args[0] == pSent {
+								shiftOK, lenAdvance = true, true
+							}
+						}
 					}
 				}
 				switch y := blk.Instrs[j].(type) {
@@ -729,7 +763,11 @@ func batchProtocol(ctx *Ctx, r *Report, fn *ssa.Function, label string) {
 				}
 			}
 		}
-		r.check("V5", key+"|output-window-advances-by-batch-size", s.Pos(), shiftOK, fmt.Sprintf("after the send: out = out[K:] with the same K=%d that triggered it", K))
+		if outBase == nil && outVal == nil {
+			continue
+		}
+		r.check("V5", key+"|sent-when-buffer-has-K-points", s.Pos(), K > 0 || lenAdvance, fmt.Sprintf("send guarded by len(points) == K (K=%d), or the window advances by the length of what was sent", K))
+		r.check("V5", key+"|output-window-advances-by-batch-size", s.Pos(), shiftOK, fmt.Sprintf("after the send: out = out[K:] with the same K=%d that triggered it, or an offset advanced by len(points sent)", K))
 		r.check("V5", label+"|fresh-point-buffer|"+fmt.Sprint(i+1), s.Pos(), fresh, "after the send the point buffer must be a new slice (the worker still reads the sent one)")
 	}
 }
@@ -763,6 +801,12 @@ func workerDone(ctx *Ctx, r *Report, fn *ssa.Function) {
 			}
 			if isWaitGroupCall(i, "Done") {
 				dones = append(dones, i)
+			}
+			// a helper of the module that signals Done exactly once on every path (r.run())
+			if c, ok := i.(*ssa.Call); ok {
+				if g := c.Call.StaticCallee(); g != nil && inModule(g) && len(g.Blocks) > 0 && callsDoneOnce(g) {
+					dones = append(dones, i)
+				}
 			}
 		})
 		ok1 := len(recvs) == 1 && len(dones) == 1
@@ -1047,6 +1091,43 @@ func sampleCounts(ctx *Ctx, r *Report, rule, key string, m *ssa.Function) {
 		}
 		phi, isPhi := bo.X.(*ssa.Phi)
 		if !isPhi || phi.Block() != ld.header {
+			// `for y := range l.buf`: as many samples as the buffer has slots; the buffer is
+			// allocated in this method with steps + 1 of them
+			if inc, ok := bo.X.(*ssa.BinOp); ok && inc.Op == token.ADD && bo.Op == token.LSS {
+				if lc, ok := bo.Y.(*ssa.Call); ok {
+					if bi, ok := lc.Call.Value.(*ssa.Builtin); ok && bi.Name() == "len" {
+						if ld2, ok := lc.Call.Args[0].(*ssa.UnOp); ok && ld2.Op == token.MUL {
+							if fa, ok := ld2.X.(*ssa.FieldAddr); ok && len(m.Params) > 0 && fa.X == ssa.Value(m.Params[0]) {
+								n++
+								sized := false
+								allInstrs(m, func(_ *ssa.BasicBlock, ins ssa.Instruction) {
+									st, ok := ins.(*ssa.Store)
+									if !ok {
+										return
+									}
+									fa2, ok := st.Addr.(*ssa.FieldAddr)
+									if !ok || fa2.X != fa.X || fa2.Field != fa.Field {
+										return
+									}
+									if mk, ok := st.Val.(*ssa.MakeSlice); ok {
+										if add, ok := mk.Len.(*ssa.BinOp); ok && add.Op == token.ADD {
+											for i, side := range []ssa.Value{add.X, add.Y} {
+												other := []ssa.Value{add.Y, add.X}[i]
+												if k, ok := side.(*ssa.Const); ok && k.Value != nil && k.Int64() == 1 && fromObjectOf(m, other) {
+													sized = true
+												}
+											}
+										}
+									}
+								})
+								if !sized {
+									bad += fmt.Sprintf(" the sampling loop at %s ranges over a buffer this method does not allocate with steps + 1 slots;", ctx.pos(branchPos(ld.header, iff)))
+								}
+							}
+						}
+					}
+				}
+			}
 			continue
 		}
 		n++
@@ -1069,7 +1150,7 @@ func sampleCounts(ctx *Ctx, r *Report, rule, key string, m *ssa.Function) {
 		switch bo.Op {
 		case token.LEQ:
 			good = fromObject(bo.Y)
-		case token.LSS:
+		case token.LSS, token.NEQ:
 			if add, ok := bo.Y.(*ssa.BinOp); ok && add.Op == token.ADD {
 				for i, side := range []ssa.Value{add.X, add.Y} {
 					other := []ssa.Value{add.Y, add.X}[i]
@@ -1151,4 +1232,49 @@ func paddedLattice(ctx *Ctx, r *Report) {
 	}
 	r.check("V7", key, es[0].Pos, bad == "", "box handed to marchingCubes = (⌈size/inc⌉ + 1)·inc on every axis;"+bad)
 	r.floor("V7", 1)
+}
+
+// fromObjectOf: v is a load through a chain of fields of m's receiver.
+func fromObjectOf(m *ssa.Function, v ssa.Value) bool {
+	ld, ok := v.(*ssa.UnOp)
+	if !ok || ld.Op != token.MUL {
+		return false
+	}
+	x := ld.X
+	for {
+		fa, ok := x.(*ssa.FieldAddr)
+		if !ok {
+			break
+		}
+		x = fa.X
+	}
+	return len(m.Params) > 0 && x == ssa.Value(m.Params[0])
+}
+
+// callsDoneOnce: g calls (*sync.WaitGroup).Done exactly once, outside any loop, on every path
+// from entry to return.
+func callsDoneOnce(g *ssa.Function) bool {
+	var dones []ssa.Instruction
+	allInstrs(g, func(_ *ssa.BasicBlock, i ssa.Instruction) {
+		if isWaitGroupCall(i, "Done") {
+			dones = append(dones, i)
+		}
+	})
+	if len(dones) != 1 {
+		return false
+	}
+	d := dones[0]
+	if _, isDefer := d.(*ssa.Defer); isDefer {
+		return true
+	}
+	if innermostLoop(g, d.Block()) != nil {
+		return false
+	}
+	// every return is dominated by the Done block
+	for _, b := range g.Blocks {
+		if _, isRet := b.Instrs[len(b.Instrs)-1].(*ssa.Return); isRet && !d.Block().Dominates(b) {
+			return false
+		}
+	}
+	return true
 }
